@@ -439,14 +439,18 @@ func runC12(r *core.Run) {
 	// failure in the middle of an item loses the bytes already consumed on the unchanged tree too -
 	// the reader makes no promise to resume there, and none is demanded)
 	var stut []C12Case
-	for a := 0; a < 3; a++ {
+	ns := 3
+	if thorough(r) {
+		ns = c12Base
+	}
+	for a := 0; a < ns; a++ {
 		for _, pa := range []int{0, 4, 8, 3} {
 			for _, single := range []bool{false, true} {
 				for _, tr := range []int{-1, 0xFD, 0} {
 					stut = append(stut, C12Case{Streams: []int{a}, Pads: []int{pa}, Trailing: tr, TailLen: 1, Single: single})
 					if tr != 0 {
-						stut = append(stut, C12Case{Streams: []int{a, (a + 1) % 3}, Pads: []int{pa, 4}, Trailing: tr, TailLen: 1, Single: single})
-						stut = append(stut, C12Case{Streams: []int{a, (a + 2) % 3, a}, Pads: []int{4, pa, 0}, Trailing: tr, TailLen: 1, Single: single})
+						stut = append(stut, C12Case{Streams: []int{a, (a + 1) % ns}, Pads: []int{pa, 4}, Trailing: tr, TailLen: 1, Single: single})
+						stut = append(stut, C12Case{Streams: []int{a, (a + 2) % ns, a}, Pads: []int{4, pa, 0}, Trailing: tr, TailLen: 1, Single: single})
 					}
 				}
 			}
@@ -485,14 +489,18 @@ func runC12(r *core.Run) {
 	r.Extra("transient_failure_cases", nst)
 	// buffered sources (Peek / Discard / Buffered) whose fills end on and off the 4-byte grid: all lists
 	// of one and two streams over the first three menu entries x all paddings 0..16, trailing bytes
+	nk := 3 // quick: the first three menu entries; thorough: the whole base menu
+	if thorough(r) {
+		nk = c12Base
+	}
 	for _, kind := range []int{1, 2, 9, 10, 11} {
-		for a := 0; a < 3; a++ {
+		for a := 0; a < nk; a++ {
 			for pa := 0; pa <= maxPad; pa++ {
 				for _, single := range []bool{false, true} {
 					cases = append(cases, C12Case{Streams: []int{a}, Pads: []int{pa}, Trailing: -1, Single: single, Kind: kind})
 				}
 				cases = append(cases, C12Case{Streams: []int{a}, Pads: []int{pa}, Trailing: 0xFD, TailLen: 1, Kind: kind})
-				for b := 0; b < 3; b++ {
+				for b := 0; b < nk; b++ {
 					for _, pb := range []int{0, 1, 4, 7, 8} {
 						cases = append(cases, C12Case{Streams: []int{a, b}, Pads: []int{pa, pb}, Trailing: -1, Kind: kind})
 					}
